@@ -11,6 +11,7 @@ EXTENDS TraphImpl, TraphAbs
 FailNamesQ(q) == LET f == SelectSeq(q, LAMBDA c : ~c[2]) IN [j \in 1..Len(f) |-> f[j][1]]
 Has(q, f) == f \in DOMAIN q
 SeqSet(q) == { q[j] : j \in 1..Len(q) }
+Trip3(x) == { <<x[j].s, x[j].t, x[j].w>> : j \in 1..Len(x) }
 
 (***************************************************************************)
 (* Observations as sets                                                    *)
